@@ -28,6 +28,7 @@ pub fn def() -> CheckDef {
         cpu_limit_s: 180,
         fault_kinds: "F-WE, F-WT, F-SE, F-FE, F-RE at every k (enumerated), F-DF from every k with heal",
         count_subruns: true,
+        expect_probes: &["flushes_verified_after_fault", "workload_seam_calls"],
     }
 }
 
